@@ -71,6 +71,12 @@ THEOREMS = [
     "OllamaVerif.C06.wrapper_forward_refines",
     "OllamaVerif.C06.wrapper_reserve_mask_exact",
     "OllamaVerif.C06.placeBase_shrunk",
+    "OllamaVerif.C06.removeV_error_unchanged",
+    "OllamaVerif.C06.remove_ok_of_guard_none",
+    "OllamaVerif.C06.removeV_ok_eq",
+    "OllamaVerif.C06.removeV_inv",
+    "OllamaVerif.C06.F28_refused_remove_shared",
+    "OllamaVerif.C06.F28_refused_remove_notsup",
     "OllamaVerif.C06.canResume_sound",
     "OllamaVerif.C06.window_present",
     "OllamaVerif.C06.pigeon",
@@ -121,7 +127,8 @@ def matcher(finding, failure):
 
 
 BIT_NAMES = {1: "F14 (defrag coalescing)", 2: "F15b (CanResume coverage)", 4: "F23 (defrag without layers)",
-             8: "C07 F-SWA-capacity (sliding-window cache sized per sequence)"}
+             8: "C07 F-SWA-capacity (sliding-window cache sized per sequence)",
+             16: "F28 (Remove leaves the cache unchanged when it returns an error)"}
 
 
 def lean_tables(lines, variant):
@@ -147,7 +154,7 @@ def lean_tables(lines, variant):
 
     return ("-- GENERATED by vlib/checks/c06.py from the tree under test (TestVerifC06Tables); do not edit\n"
             "namespace OllamaVerif.Generated.C06\n\n"
-            f"/-- model variant bits probed from the tree (1 F14, 2 F15b, 4 F23, 8 SWA capacity per sequence) -/\n"
+            f"/-- model variant bits probed from the tree (1 F14, 2 F15b, 4 F23, 8 SWA capacity per sequence, 16 F28 atomic Remove) -/\n"
             f"def variantBits : Nat := {variant}\n\n"
             + lst("mask", "Nat × Bool × Bool × Int × Int × Bool",
                   "window (0 = none), the cell is owned by the query's sequence, causal test enabled, cell position, "
